@@ -1220,6 +1220,27 @@ class StateEngine(object):
                     #print("Terminating parent branch {}".format(parent_index))
                     parent_results[parent_index] = "__TERMINATED__"
 
+                    """
+                    The same goes for the states further out that are being
+                    wound up: with three or more levels of nesting nothing else
+                    would ever report for their branch, and their results would
+                    be kept for ever.
+                    """
+                    inner_results = parent_branch_results
+                    for level in range(len(branch_info_stack) - 3, -1, -1):
+                        if inner_results.get("failed"):
+                            break
+                        enclosing_info = branch_info_stack[level]
+                        enclosing_results = all_branch_results.get(enclosing_info.get("ID"))
+                        if (enclosing_results and "Index" in enclosing_info and
+                            self.branch_results_wound_up(
+                                all_branch_results, enclosing_results
+                            )):
+                            enclosing_results["results"][enclosing_info["Index"]] = "__TERMINATED__"
+                            inner_results = enclosing_results
+                        else:
+                            break
+
                 #print(self.branch_metadata)
                 #print()
 
